@@ -17,9 +17,10 @@ from .values import Unsupported, simp
 
 
 class LoopContract:
-    def __init__(self, chk, name, inv, havoc, abstract=None, desc="", on_step=None):
+    def __init__(self, chk, name, inv, havoc, abstract=None, desc="", on_step=None, variant=None, variant_desc=""):
         self.chk, self.name, self.inv, self.havoc, self.abstract, self.desc = chk, name, inv, havoc, abstract, desc
         self.on_step = on_step
+        self.variant, self.variant_desc = variant, variant_desc  # variant(eng, st) -> z3 Int: >= 0 whenever the body is entered and strictly smaller after it (termination)
         self.reached = 0
 
     def __call__(self, eng, node, st):
@@ -46,8 +47,12 @@ class LoopContract:
                 if not taken:
                     out.extend(eng.exec_block(node.orelse, s1) if node.orelse else [("fall", None, s1)])
                     continue
+                v0 = self.variant(eng, s1) if self.variant else None
                 for k2, v2, s2 in eng.exec_block(node.body, s1):
                     if k2 in ("fall", "continue"):
+                        if v0 is not None:
+                            chk.prove(self.name + ".variant", s2.pc, z3.And(v0 >= 0, self.variant(eng, s2) < v0),
+                                      desc=f"termination: the variant is non-negative when the body is entered and strictly smaller after every iteration that continues the loop ({self.variant_desc})")
                         if self.on_step:
                             self.on_step(eng, s2)
                         chk.prove(self.name + ".step", s2.pc, self.inv(eng, s2), desc=f"loop body preserves the invariant: {self.desc}", sample=f"{self.name}: invariant after one arbitrary iteration")
